@@ -19,7 +19,7 @@ Record cell := mkcell { c_bid : Z; c_sids : list Z; c_proc : bool }.
 (* p.grad_sample : None | tensor | list of tensors *)
 Inductive gsv := GNone | GTensor (c : cell) | GList (l : list cell).
 (* a clipped contribution: backward id, sample id, clipping norm used *)
-Definition item : Type := (Z * Z * T)%type.
+Definition item : Type := (Z * Z * option T)%type.   (* None: an UNCLIPPED (raw) per-sample gradient *)
 (* p.summed_grad tensor: contents + `_processed` attribute *)
 Record sumv := mksum { s_items : list item; s_proc : bool }.
 (* a noise value: linear combination of fresh standard draws: (stream position, std, divisor) *)
@@ -35,32 +35,65 @@ Inductive event :=
 | EClipUpdate (oldC newC : T).            (* adaptive clipping update *)
 
 Inductive variant := Flat | PerLayer | AdaClip | Ghost.
+Inductive acckind := AccRDP | AccPRV | AccGDP.
+Inductive shape := ShapeRef | Shape11 | ShapeOther.
 
 Record ost := mkost {
   o_variant : variant;
-  o_gs : gsv; o_summed : option sumv; o_grad : option gradv;
-  o_skipq : list bool; o_last_skipped : bool;
-  o_nm : T; o_mgn : T; o_ebs : T; o_mean : bool; o_secure : bool;
-  o_has_hook : bool; o_rate : T; o_hist : list (T * T * Z);
-  o_next_bid : Z; o_noise_pos : Z; o_accum_allowed : bool;
-  o_rank : Z; o_world : Z;
-  (* adaptive clipping counters *)
-  o_sample_size : Z; o_unclipped : T;
+  o_acc : acckind;
+  o_gs : gsv;
+  o_summed : option sumv;
+  o_grad : option gradv;
+  o_skipq : list bool;
+  o_last_skipped : bool;
+  o_nm : T;
+  o_mgn : T;
+  o_ebs : T;
+  o_mean : bool;
+  o_secure : bool;
+  o_has_hook : bool;
+  o_rate : T;
+  o_hist : list (T * T * Z);
+  o_next_bid : Z;
+  o_noise_pos : Z;
+  o_accum_allowed : bool;
+  o_rank : Z;
+  o_world : Z;
+  o_sample_size : Z;
+  o_unclipped : T;
+  o_target_q : T;
+  o_clip_lr : T;
+  o_max_clip : T;
+  o_min_clip : T;
+  o_unclipped_std : T;
   o_events : list event }.
 
-Definition upd_gs s v := mkost (o_variant s) v (o_summed s) (o_grad s) (o_skipq s) (o_last_skipped s) (o_nm s) (o_mgn s) (o_ebs s) (o_mean s) (o_secure s) (o_has_hook s) (o_rate s) (o_hist s) (o_next_bid s) (o_noise_pos s) (o_accum_allowed s) (o_rank s) (o_world s) (o_sample_size s) (o_unclipped s) (o_events s).
-Definition upd_summed s v := mkost (o_variant s) (o_gs s) v (o_grad s) (o_skipq s) (o_last_skipped s) (o_nm s) (o_mgn s) (o_ebs s) (o_mean s) (o_secure s) (o_has_hook s) (o_rate s) (o_hist s) (o_next_bid s) (o_noise_pos s) (o_accum_allowed s) (o_rank s) (o_world s) (o_sample_size s) (o_unclipped s) (o_events s).
-Definition upd_grad s v := mkost (o_variant s) (o_gs s) (o_summed s) v (o_skipq s) (o_last_skipped s) (o_nm s) (o_mgn s) (o_ebs s) (o_mean s) (o_secure s) (o_has_hook s) (o_rate s) (o_hist s) (o_next_bid s) (o_noise_pos s) (o_accum_allowed s) (o_rank s) (o_world s) (o_sample_size s) (o_unclipped s) (o_events s).
-Definition upd_skipq s v := mkost (o_variant s) (o_gs s) (o_summed s) (o_grad s) v (o_last_skipped s) (o_nm s) (o_mgn s) (o_ebs s) (o_mean s) (o_secure s) (o_has_hook s) (o_rate s) (o_hist s) (o_next_bid s) (o_noise_pos s) (o_accum_allowed s) (o_rank s) (o_world s) (o_sample_size s) (o_unclipped s) (o_events s).
-Definition upd_last_skipped s v := mkost (o_variant s) (o_gs s) (o_summed s) (o_grad s) (o_skipq s) v (o_nm s) (o_mgn s) (o_ebs s) (o_mean s) (o_secure s) (o_has_hook s) (o_rate s) (o_hist s) (o_next_bid s) (o_noise_pos s) (o_accum_allowed s) (o_rank s) (o_world s) (o_sample_size s) (o_unclipped s) (o_events s).
-Definition upd_nm s v := mkost (o_variant s) (o_gs s) (o_summed s) (o_grad s) (o_skipq s) (o_last_skipped s) v (o_mgn s) (o_ebs s) (o_mean s) (o_secure s) (o_has_hook s) (o_rate s) (o_hist s) (o_next_bid s) (o_noise_pos s) (o_accum_allowed s) (o_rank s) (o_world s) (o_sample_size s) (o_unclipped s) (o_events s).
-Definition upd_mgn s v := mkost (o_variant s) (o_gs s) (o_summed s) (o_grad s) (o_skipq s) (o_last_skipped s) (o_nm s) v (o_ebs s) (o_mean s) (o_secure s) (o_has_hook s) (o_rate s) (o_hist s) (o_next_bid s) (o_noise_pos s) (o_accum_allowed s) (o_rank s) (o_world s) (o_sample_size s) (o_unclipped s) (o_events s).
-Definition upd_hist s v := mkost (o_variant s) (o_gs s) (o_summed s) (o_grad s) (o_skipq s) (o_last_skipped s) (o_nm s) (o_mgn s) (o_ebs s) (o_mean s) (o_secure s) (o_has_hook s) (o_rate s) v (o_next_bid s) (o_noise_pos s) (o_accum_allowed s) (o_rank s) (o_world s) (o_sample_size s) (o_unclipped s) (o_events s).
-Definition upd_next_bid s v := mkost (o_variant s) (o_gs s) (o_summed s) (o_grad s) (o_skipq s) (o_last_skipped s) (o_nm s) (o_mgn s) (o_ebs s) (o_mean s) (o_secure s) (o_has_hook s) (o_rate s) (o_hist s) v (o_noise_pos s) (o_accum_allowed s) (o_rank s) (o_world s) (o_sample_size s) (o_unclipped s) (o_events s).
-Definition upd_noise_pos s v := mkost (o_variant s) (o_gs s) (o_summed s) (o_grad s) (o_skipq s) (o_last_skipped s) (o_nm s) (o_mgn s) (o_ebs s) (o_mean s) (o_secure s) (o_has_hook s) (o_rate s) (o_hist s) (o_next_bid s) v (o_accum_allowed s) (o_rank s) (o_world s) (o_sample_size s) (o_unclipped s) (o_events s).
-Definition upd_sample_size s v := mkost (o_variant s) (o_gs s) (o_summed s) (o_grad s) (o_skipq s) (o_last_skipped s) (o_nm s) (o_mgn s) (o_ebs s) (o_mean s) (o_secure s) (o_has_hook s) (o_rate s) (o_hist s) (o_next_bid s) (o_noise_pos s) (o_accum_allowed s) (o_rank s) (o_world s) v (o_unclipped s) (o_events s).
-Definition upd_unclipped s v := mkost (o_variant s) (o_gs s) (o_summed s) (o_grad s) (o_skipq s) (o_last_skipped s) (o_nm s) (o_mgn s) (o_ebs s) (o_mean s) (o_secure s) (o_has_hook s) (o_rate s) (o_hist s) (o_next_bid s) (o_noise_pos s) (o_accum_allowed s) (o_rank s) (o_world s) (o_sample_size s) v (o_events s).
-Definition upd_events s v := mkost (o_variant s) (o_gs s) (o_summed s) (o_grad s) (o_skipq s) (o_last_skipped s) (o_nm s) (o_mgn s) (o_ebs s) (o_mean s) (o_secure s) (o_has_hook s) (o_rate s) (o_hist s) (o_next_bid s) (o_noise_pos s) (o_accum_allowed s) (o_rank s) (o_world s) (o_sample_size s) (o_unclipped s) v.
+Definition upd_gs s v := mkost (o_variant s) (o_acc s) v (o_summed s) (o_grad s) (o_skipq s) (o_last_skipped s) (o_nm s) (o_mgn s) (o_ebs s) (o_mean s) (o_secure s) (o_has_hook s) (o_rate s) (o_hist s) (o_next_bid s) (o_noise_pos s) (o_accum_allowed s) (o_rank s) (o_world s) (o_sample_size s) (o_unclipped s) (o_target_q s) (o_clip_lr s) (o_max_clip s) (o_min_clip s) (o_unclipped_std s) (o_events s).
+Definition upd_summed s v := mkost (o_variant s) (o_acc s) (o_gs s) v (o_grad s) (o_skipq s) (o_last_skipped s) (o_nm s) (o_mgn s) (o_ebs s) (o_mean s) (o_secure s) (o_has_hook s) (o_rate s) (o_hist s) (o_next_bid s) (o_noise_pos s) (o_accum_allowed s) (o_rank s) (o_world s) (o_sample_size s) (o_unclipped s) (o_target_q s) (o_clip_lr s) (o_max_clip s) (o_min_clip s) (o_unclipped_std s) (o_events s).
+Definition upd_grad s v := mkost (o_variant s) (o_acc s) (o_gs s) (o_summed s) v (o_skipq s) (o_last_skipped s) (o_nm s) (o_mgn s) (o_ebs s) (o_mean s) (o_secure s) (o_has_hook s) (o_rate s) (o_hist s) (o_next_bid s) (o_noise_pos s) (o_accum_allowed s) (o_rank s) (o_world s) (o_sample_size s) (o_unclipped s) (o_target_q s) (o_clip_lr s) (o_max_clip s) (o_min_clip s) (o_unclipped_std s) (o_events s).
+Definition upd_skipq s v := mkost (o_variant s) (o_acc s) (o_gs s) (o_summed s) (o_grad s) v (o_last_skipped s) (o_nm s) (o_mgn s) (o_ebs s) (o_mean s) (o_secure s) (o_has_hook s) (o_rate s) (o_hist s) (o_next_bid s) (o_noise_pos s) (o_accum_allowed s) (o_rank s) (o_world s) (o_sample_size s) (o_unclipped s) (o_target_q s) (o_clip_lr s) (o_max_clip s) (o_min_clip s) (o_unclipped_std s) (o_events s).
+Definition upd_last_skipped s v := mkost (o_variant s) (o_acc s) (o_gs s) (o_summed s) (o_grad s) (o_skipq s) v (o_nm s) (o_mgn s) (o_ebs s) (o_mean s) (o_secure s) (o_has_hook s) (o_rate s) (o_hist s) (o_next_bid s) (o_noise_pos s) (o_accum_allowed s) (o_rank s) (o_world s) (o_sample_size s) (o_unclipped s) (o_target_q s) (o_clip_lr s) (o_max_clip s) (o_min_clip s) (o_unclipped_std s) (o_events s).
+Definition upd_nm s v := mkost (o_variant s) (o_acc s) (o_gs s) (o_summed s) (o_grad s) (o_skipq s) (o_last_skipped s) v (o_mgn s) (o_ebs s) (o_mean s) (o_secure s) (o_has_hook s) (o_rate s) (o_hist s) (o_next_bid s) (o_noise_pos s) (o_accum_allowed s) (o_rank s) (o_world s) (o_sample_size s) (o_unclipped s) (o_target_q s) (o_clip_lr s) (o_max_clip s) (o_min_clip s) (o_unclipped_std s) (o_events s).
+Definition upd_mgn s v := mkost (o_variant s) (o_acc s) (o_gs s) (o_summed s) (o_grad s) (o_skipq s) (o_last_skipped s) (o_nm s) v (o_ebs s) (o_mean s) (o_secure s) (o_has_hook s) (o_rate s) (o_hist s) (o_next_bid s) (o_noise_pos s) (o_accum_allowed s) (o_rank s) (o_world s) (o_sample_size s) (o_unclipped s) (o_target_q s) (o_clip_lr s) (o_max_clip s) (o_min_clip s) (o_unclipped_std s) (o_events s).
+Definition upd_ebs s v := mkost (o_variant s) (o_acc s) (o_gs s) (o_summed s) (o_grad s) (o_skipq s) (o_last_skipped s) (o_nm s) (o_mgn s) v (o_mean s) (o_secure s) (o_has_hook s) (o_rate s) (o_hist s) (o_next_bid s) (o_noise_pos s) (o_accum_allowed s) (o_rank s) (o_world s) (o_sample_size s) (o_unclipped s) (o_target_q s) (o_clip_lr s) (o_max_clip s) (o_min_clip s) (o_unclipped_std s) (o_events s).
+Definition upd_mean s v := mkost (o_variant s) (o_acc s) (o_gs s) (o_summed s) (o_grad s) (o_skipq s) (o_last_skipped s) (o_nm s) (o_mgn s) (o_ebs s) v (o_secure s) (o_has_hook s) (o_rate s) (o_hist s) (o_next_bid s) (o_noise_pos s) (o_accum_allowed s) (o_rank s) (o_world s) (o_sample_size s) (o_unclipped s) (o_target_q s) (o_clip_lr s) (o_max_clip s) (o_min_clip s) (o_unclipped_std s) (o_events s).
+Definition upd_secure s v := mkost (o_variant s) (o_acc s) (o_gs s) (o_summed s) (o_grad s) (o_skipq s) (o_last_skipped s) (o_nm s) (o_mgn s) (o_ebs s) (o_mean s) v (o_has_hook s) (o_rate s) (o_hist s) (o_next_bid s) (o_noise_pos s) (o_accum_allowed s) (o_rank s) (o_world s) (o_sample_size s) (o_unclipped s) (o_target_q s) (o_clip_lr s) (o_max_clip s) (o_min_clip s) (o_unclipped_std s) (o_events s).
+Definition upd_has_hook s v := mkost (o_variant s) (o_acc s) (o_gs s) (o_summed s) (o_grad s) (o_skipq s) (o_last_skipped s) (o_nm s) (o_mgn s) (o_ebs s) (o_mean s) (o_secure s) v (o_rate s) (o_hist s) (o_next_bid s) (o_noise_pos s) (o_accum_allowed s) (o_rank s) (o_world s) (o_sample_size s) (o_unclipped s) (o_target_q s) (o_clip_lr s) (o_max_clip s) (o_min_clip s) (o_unclipped_std s) (o_events s).
+Definition upd_rate s v := mkost (o_variant s) (o_acc s) (o_gs s) (o_summed s) (o_grad s) (o_skipq s) (o_last_skipped s) (o_nm s) (o_mgn s) (o_ebs s) (o_mean s) (o_secure s) (o_has_hook s) v (o_hist s) (o_next_bid s) (o_noise_pos s) (o_accum_allowed s) (o_rank s) (o_world s) (o_sample_size s) (o_unclipped s) (o_target_q s) (o_clip_lr s) (o_max_clip s) (o_min_clip s) (o_unclipped_std s) (o_events s).
+Definition upd_hist s v := mkost (o_variant s) (o_acc s) (o_gs s) (o_summed s) (o_grad s) (o_skipq s) (o_last_skipped s) (o_nm s) (o_mgn s) (o_ebs s) (o_mean s) (o_secure s) (o_has_hook s) (o_rate s) v (o_next_bid s) (o_noise_pos s) (o_accum_allowed s) (o_rank s) (o_world s) (o_sample_size s) (o_unclipped s) (o_target_q s) (o_clip_lr s) (o_max_clip s) (o_min_clip s) (o_unclipped_std s) (o_events s).
+Definition upd_next_bid s v := mkost (o_variant s) (o_acc s) (o_gs s) (o_summed s) (o_grad s) (o_skipq s) (o_last_skipped s) (o_nm s) (o_mgn s) (o_ebs s) (o_mean s) (o_secure s) (o_has_hook s) (o_rate s) (o_hist s) v (o_noise_pos s) (o_accum_allowed s) (o_rank s) (o_world s) (o_sample_size s) (o_unclipped s) (o_target_q s) (o_clip_lr s) (o_max_clip s) (o_min_clip s) (o_unclipped_std s) (o_events s).
+Definition upd_noise_pos s v := mkost (o_variant s) (o_acc s) (o_gs s) (o_summed s) (o_grad s) (o_skipq s) (o_last_skipped s) (o_nm s) (o_mgn s) (o_ebs s) (o_mean s) (o_secure s) (o_has_hook s) (o_rate s) (o_hist s) (o_next_bid s) v (o_accum_allowed s) (o_rank s) (o_world s) (o_sample_size s) (o_unclipped s) (o_target_q s) (o_clip_lr s) (o_max_clip s) (o_min_clip s) (o_unclipped_std s) (o_events s).
+Definition upd_accum_allowed s v := mkost (o_variant s) (o_acc s) (o_gs s) (o_summed s) (o_grad s) (o_skipq s) (o_last_skipped s) (o_nm s) (o_mgn s) (o_ebs s) (o_mean s) (o_secure s) (o_has_hook s) (o_rate s) (o_hist s) (o_next_bid s) (o_noise_pos s) v (o_rank s) (o_world s) (o_sample_size s) (o_unclipped s) (o_target_q s) (o_clip_lr s) (o_max_clip s) (o_min_clip s) (o_unclipped_std s) (o_events s).
+Definition upd_rank s v := mkost (o_variant s) (o_acc s) (o_gs s) (o_summed s) (o_grad s) (o_skipq s) (o_last_skipped s) (o_nm s) (o_mgn s) (o_ebs s) (o_mean s) (o_secure s) (o_has_hook s) (o_rate s) (o_hist s) (o_next_bid s) (o_noise_pos s) (o_accum_allowed s) v (o_world s) (o_sample_size s) (o_unclipped s) (o_target_q s) (o_clip_lr s) (o_max_clip s) (o_min_clip s) (o_unclipped_std s) (o_events s).
+Definition upd_world s v := mkost (o_variant s) (o_acc s) (o_gs s) (o_summed s) (o_grad s) (o_skipq s) (o_last_skipped s) (o_nm s) (o_mgn s) (o_ebs s) (o_mean s) (o_secure s) (o_has_hook s) (o_rate s) (o_hist s) (o_next_bid s) (o_noise_pos s) (o_accum_allowed s) (o_rank s) v (o_sample_size s) (o_unclipped s) (o_target_q s) (o_clip_lr s) (o_max_clip s) (o_min_clip s) (o_unclipped_std s) (o_events s).
+Definition upd_sample_size s v := mkost (o_variant s) (o_acc s) (o_gs s) (o_summed s) (o_grad s) (o_skipq s) (o_last_skipped s) (o_nm s) (o_mgn s) (o_ebs s) (o_mean s) (o_secure s) (o_has_hook s) (o_rate s) (o_hist s) (o_next_bid s) (o_noise_pos s) (o_accum_allowed s) (o_rank s) (o_world s) v (o_unclipped s) (o_target_q s) (o_clip_lr s) (o_max_clip s) (o_min_clip s) (o_unclipped_std s) (o_events s).
+Definition upd_unclipped s v := mkost (o_variant s) (o_acc s) (o_gs s) (o_summed s) (o_grad s) (o_skipq s) (o_last_skipped s) (o_nm s) (o_mgn s) (o_ebs s) (o_mean s) (o_secure s) (o_has_hook s) (o_rate s) (o_hist s) (o_next_bid s) (o_noise_pos s) (o_accum_allowed s) (o_rank s) (o_world s) (o_sample_size s) v (o_target_q s) (o_clip_lr s) (o_max_clip s) (o_min_clip s) (o_unclipped_std s) (o_events s).
+Definition upd_target_q s v := mkost (o_variant s) (o_acc s) (o_gs s) (o_summed s) (o_grad s) (o_skipq s) (o_last_skipped s) (o_nm s) (o_mgn s) (o_ebs s) (o_mean s) (o_secure s) (o_has_hook s) (o_rate s) (o_hist s) (o_next_bid s) (o_noise_pos s) (o_accum_allowed s) (o_rank s) (o_world s) (o_sample_size s) (o_unclipped s) v (o_clip_lr s) (o_max_clip s) (o_min_clip s) (o_unclipped_std s) (o_events s).
+Definition upd_clip_lr s v := mkost (o_variant s) (o_acc s) (o_gs s) (o_summed s) (o_grad s) (o_skipq s) (o_last_skipped s) (o_nm s) (o_mgn s) (o_ebs s) (o_mean s) (o_secure s) (o_has_hook s) (o_rate s) (o_hist s) (o_next_bid s) (o_noise_pos s) (o_accum_allowed s) (o_rank s) (o_world s) (o_sample_size s) (o_unclipped s) (o_target_q s) v (o_max_clip s) (o_min_clip s) (o_unclipped_std s) (o_events s).
+Definition upd_max_clip s v := mkost (o_variant s) (o_acc s) (o_gs s) (o_summed s) (o_grad s) (o_skipq s) (o_last_skipped s) (o_nm s) (o_mgn s) (o_ebs s) (o_mean s) (o_secure s) (o_has_hook s) (o_rate s) (o_hist s) (o_next_bid s) (o_noise_pos s) (o_accum_allowed s) (o_rank s) (o_world s) (o_sample_size s) (o_unclipped s) (o_target_q s) (o_clip_lr s) v (o_min_clip s) (o_unclipped_std s) (o_events s).
+Definition upd_min_clip s v := mkost (o_variant s) (o_acc s) (o_gs s) (o_summed s) (o_grad s) (o_skipq s) (o_last_skipped s) (o_nm s) (o_mgn s) (o_ebs s) (o_mean s) (o_secure s) (o_has_hook s) (o_rate s) (o_hist s) (o_next_bid s) (o_noise_pos s) (o_accum_allowed s) (o_rank s) (o_world s) (o_sample_size s) (o_unclipped s) (o_target_q s) (o_clip_lr s) (o_max_clip s) v (o_unclipped_std s) (o_events s).
+Definition upd_unclipped_std s v := mkost (o_variant s) (o_acc s) (o_gs s) (o_summed s) (o_grad s) (o_skipq s) (o_last_skipped s) (o_nm s) (o_mgn s) (o_ebs s) (o_mean s) (o_secure s) (o_has_hook s) (o_rate s) (o_hist s) (o_next_bid s) (o_noise_pos s) (o_accum_allowed s) (o_rank s) (o_world s) (o_sample_size s) (o_unclipped s) (o_target_q s) (o_clip_lr s) (o_max_clip s) (o_min_clip s) v (o_events s).
+Definition upd_events s v := mkost (o_variant s) (o_acc s) (o_gs s) (o_summed s) (o_grad s) (o_skipq s) (o_last_skipped s) (o_nm s) (o_mgn s) (o_ebs s) (o_mean s) (o_secure s) (o_has_hook s) (o_rate s) (o_hist s) (o_next_bid s) (o_noise_pos s) (o_accum_allowed s) (o_rank s) (o_world s) (o_sample_size s) (o_unclipped s) (o_target_q s) (o_clip_lr s) (o_max_clip s) (o_min_clip s) (o_unclipped_std s) v.
 Definition emit s e := upd_events s (o_events s ++ [e]).
 
 (* ---- primitives standing for the helper functions pinned in py/translate/gen_optim.py ---- *)
@@ -104,7 +137,7 @@ Definition sum_mark (o : option sumv) : option sumv :=
   match o with Some v => Some (mksum (s_items v) true) | None => None end.
 (* torch.einsum("i,i...", per_sample_clip_factor, grad_sample): every sample's gradient scaled by
    its clip factor w.r.t. the norm in force *)
-Definition clip_items (C : T) (ids : list (Z * Z)) : list item := map (fun p => (fst p, snd p, C)) ids.
+Definition clip_items (C : T) (ids : list (Z * Z)) : list item := map (fun p => (fst p, snd p, Some C)) ids.
 (* p.summed_grad += grad   (in place: keeps the `_processed` attribute) *)
 Definition sum_iadd (v : sumv) (g : list item) : sumv := mksum (s_items v ++ g) (s_proc v).
 (* promote_current_grad_sample *)
@@ -128,6 +161,32 @@ Definition grad_zero (g : option gradv) : option gradv :=
   match g with None => None | Some _ => Some (mkgrad [] [] [] []) end.
 Definition grad_div (g : option gradv) (d : T) : option gradv :=
   match g with None => None | Some v => Some (mkgrad (g_raw v) (g_items v) (g_noise v) (g_divs v ++ [d])) end.
+(* torch.zeros(reference.shape, ...): dereferences p.summed_grad *)
+Definition deref_zeros (reference : option sumv) (s : ost) : result (ost * noise) :=
+  match reference with None => Err AttributeError | Some _ => Ok (s, []) end.
+Definition shape_of_pair (p : Z * Z) : shape := if (Z.eqb (fst p) 1 && Z.eqb (snd p) 1)%bool then Shape11 else ShapeOther.
+(* torch.normal(mean=0, std, size, generator): one fresh position of the generator stream *)
+Definition draw_normal (s : ost) (std : T) (size : shape) : result (ost * noise) :=
+  let pos := o_noise_pos s in
+  let s := upd_noise_pos s (pos + 1)%Z in
+  Ok (emit s (match size with ShapeRef => ENoise std pos | _ => EDiscard std pos end), [(pos, std, 1%Z)]).
+Definition noise_div (n : noise) (d : Z) : noise := map (fun '(p, sd, k) => (p, sd, (k * d)%Z)) n.
+(* (p.summed_grad + noise).view_as(p) *)
+Definition grad_of_sum (o : option sumv) (n : noise) : option gradv :=
+  match o with Some v => Some (mkgrad [] (s_items v) n []) | None => None end.
+Definition inner_zero_grad (s : ost) (set_to_none : bool) : result (ost * unit) :=
+  Ok (upd_grad s (if set_to_none then None else grad_zero (o_grad s)), tt).
+Definition inner_step (s : ost) : result (ost * unit) := Ok (emit s (EInner (o_grad s)), tt).
+(* everything p.grad holds, as contributions (raw ones carry no clipping norm) *)
+Definition grad_items (v : gradv) : list item := map (fun p => (fst p, snd p, None)) (g_raw v) ++ g_items v.
+(* p.grad.data : AttributeError when p.grad is None *)
+Definition grad_data (s : ost) : result (ost * gradv) :=
+  match o_grad s with Some v => Ok (s, v) | None => Err AttributeError end.
+(* copy.deepcopy(p.grad.data): a new tensor, no `_processed` attribute *)
+Definition sum_of_grad (v : gradv) : option sumv := Some (mksum (grad_items v) false).
+(* DPOptimizer.grad_samples: one flat per-sample gradient per parameter *)
+Definition grad_samples (s : ost) : result (ost * list (list (Z * Z))) :=
+  bind (gs_flat (o_gs s)) (fun ids => Ok (s, [ids])).
 End OS.
 
 Arguments item : clear implicits.
